@@ -50,6 +50,18 @@ mod imp {
                     "unnorm_f64": num(Target::<f64, f64>::unnorm_logp(&p64, &to)),
                 })
             }
+            "iso_sample" => {
+                // sample(from) against from + std * z with z drawn by StandardNormal from a clone of the proposal's generator
+                use rand_distr::{Distribution, StandardNormal};
+                let std = case["std"].as_f64().unwrap();
+                let from = f64s(&case["from"]);
+                let mut p = IsotropicGaussian::<f64>::new(std).set_seed(case["seed"].as_u64().unwrap_or(9));
+                let mut twin = p.verif_rng().clone();
+                let got = p.sample(&from);
+                let want: Vec<f64> = from.iter().map(|x| { let z: f64 = StandardNormal.sample(&mut twin); *x + std * z }).collect();
+                let again = IsotropicGaussian::<f64>::new(std).set_seed(case["seed"].as_u64().unwrap_or(9)).sample(&from);
+                json!({"sample": Value::Array(got.iter().map(|x| num(*x)).collect()), "want": Value::Array(want.iter().map(|x| num(*x)).collect()), "same_seed_same_draw": got == again})
+            }
             "gaussian2d" => {
                 let mean = f64s(&case["mean"]);
                 let cov = f64s(&case["cov"]);
@@ -486,7 +498,17 @@ mod imp2 {
                         let pos_after: Vec<f64> = s1.positions.to_data().to_vec().unwrap();
                         let r2: Vec<f64> = s1.run(c, 0).to_data().to_vec().unwrap();
                         let long: Vec<f64> = s2.run(a + c, b).to_data().to_vec().unwrap();
-                        json!({"first": nums(&r1), "second": nums(&r2), "long": nums(&long), "pos_after_first": nums(&pos_after), "shape": [3, a, 2]})
+                        // b + a transitions made by hand on an identically seeded sampler: positions after each of the last a
+                        let mut s3 = mk();
+                        let mut manual: Vec<Vec<f64>> = vec![];
+                        for k in 0..(a + b) {
+                            s3.step();
+                            if k >= b {
+                                manual.push(s3.positions.to_data().to_vec().unwrap());
+                            }
+                        }
+                        json!({"first": nums(&r1), "second": nums(&r2), "long": nums(&long), "pos_after_first": nums(&pos_after), "shape": [3, a, 2],
+                               "manual": manual.iter().map(|m| nums(m)).collect::<Vec<_>>()})
                     }
                     _ => {
                         let mk = || NUTSChain::<f64, B64, _>::new(g(), vec![0.5, -0.5], 0.8).set_seed(seed);
@@ -504,6 +526,47 @@ mod imp2 {
                                "rng_same_as_rerun": &rng_after == t2.verif_rng(), "shape": [a, 2]})
                     }
                 }
+            }
+            "runner_layout" => {
+                // ChainRunner::run on a user-defined sampler whose chain c counts from 100*c: row c, entry k must be
+                // 100*c + n_discard + k + 1; a following run continues
+                use mini_mcmc::core::{ChainRunner, HasChains, MarkovChain};
+                struct Counter { state: Vec<f64> }
+                impl MarkovChain<f64> for Counter {
+                    fn step(&mut self) -> &Vec<f64> { self.state[0] += 1.0; self.state[1] -= 1.0; &self.state }
+                    fn current_state(&self) -> &Vec<f64> { &self.state }
+                }
+                struct S { chains: Vec<Counter> }
+                impl HasChains<f64> for S {
+                    type Chain = Counter;
+                    fn chains_mut(&mut self) -> &mut Vec<Counter> { &mut self.chains }
+                }
+                let nc = case["chains"].as_u64().unwrap() as usize;
+                let ncol = case["n_collect"].as_u64().unwrap() as usize;
+                let ndis = case["n_discard"].as_u64().unwrap() as usize;
+                let mut s = S { chains: (0..nc).map(|c| Counter { state: vec![100.0 * c as f64, -100.0 * c as f64] }).collect() };
+                let r1 = s.run(ncol, ndis);
+                let r2 = s.run(ncol, 0);
+                let mut bad: Vec<String> = vec![];
+                match (&r1, &r2) {
+                    (Ok(a), Ok(b)) => {
+                        if a.shape() != [nc, ncol, 2] || b.shape() != [nc, ncol, 2] {
+                            bad.push(format!("shapes {:?} {:?}", a.shape(), b.shape()));
+                        } else {
+                            for c in 0..nc {
+                                for k in 0..ncol {
+                                    let w1 = 100.0 * c as f64 + (ndis + k + 1) as f64;
+                                    let w2 = 100.0 * c as f64 + (ndis + ncol + k + 1) as f64;
+                                    if a[[c, k, 0]] != w1 || a[[c, k, 1]] != -w1 { bad.push(format!("first run [{c},{k}] = {} expected {}", a[[c, k, 0]], w1)); }
+                                    if b[[c, k, 0]] != w2 || b[[c, k, 1]] != -w2 { bad.push(format!("second run [{c},{k}] = {} expected {}", b[[c, k, 0]], w2)); }
+                                }
+                            }
+                        }
+                    }
+                    _ => bad.push("run returned Err".into()),
+                }
+                bad.truncate(4);
+                json!({"ok": bad.is_empty(), "bad": bad})
             }
             "run_chain_progress" => {
                 use mini_mcmc::core::{run_chain, run_chain_progress, MarkovChain};
@@ -664,6 +727,55 @@ mod imp2 {
                 let distinct = ca[0].verif_rng() != ca[1].verif_rng() && ca[1].verif_rng() != ca[2].verif_rng() && ca[0].verif_rng() != ca[2].verif_rng();
                 let reproducible = (0..3).all(|i| ca[i].verif_rng() == cb[i].verif_rng());
                 json!({"distinct": distinct, "reproducible": reproducible})
+            }
+            "progress_stats" => {
+                // run_progress: draws equal run()'s on an identically seeded sampler (MH, HMC) and the returned RunStats equal
+                // RunStats::from(the returned draws)
+                use mini_mcmc::core::ChainRunner;
+                use mini_mcmc::distributions::{Gaussian2D, IsotropicGaussian, Proposal};
+                use mini_mcmc::metropolis_hastings::MetropolisHastings;
+                use mini_mcmc::nuts::NUTS;
+                use mini_mcmc::stats::{BasicStats, RunStats};
+                let (a, b) = (case["n_collect"].as_u64().unwrap_or(8) as usize, case["n_discard"].as_u64().unwrap_or(2) as usize);
+                let k = case["chains"].as_u64().unwrap_or(3) as usize;
+                fn beq(x: &BasicStats, y: &BasicStats) -> bool {
+                    let f = |p: f32, q: f32| (p.is_nan() && q.is_nan()) || p == q;
+                    f(x.min, y.min) && f(x.max, y.max) && f(x.mean, y.mean) && f(x.std, y.std) && f(x.median, y.median)
+                }
+                let seq = |st: &RunStats, want: &RunStats| beq(&st.ess, &want.ess) && beq(&st.rhat, &want.rhat);
+                let g = || DiffableGaussian2D::<f64>::new([0.0, 1.0], [[4.0, 2.0], [2.0, 3.0]]);
+                let inits = |k: usize| (0..k).map(|c| vec![0.5 * c as f64, -0.25 * c as f64]).collect::<Vec<_>>();
+                match case["sampler"].as_str().unwrap_or("mh") {
+                    "mh" => {
+                        let mk = || {
+                            let target = Gaussian2D::<f64> { mean: ndarray::arr1(&[0.0, 0.0]), cov: ndarray::arr2(&[[1.0, 0.0], [0.0, 1.0]]) };
+                            MetropolisHastings::new(target, IsotropicGaussian::<f64>::new(1.0).set_seed(3), inits(k)).seed(11)
+                        };
+                        let (mut s1, mut s2) = (mk(), mk());
+                        let (sample, st) = s1.run_progress(a, b).unwrap();
+                        let plain = s2.run(a, b).unwrap();
+                        let want = RunStats::from(sample.view());
+                        json!({"same_draws_as_run": sample == plain, "stats_from_returned_draws": seq(&st, &want)})
+                    }
+                    "hmc" => {
+                        let mk = || HMC::<f64, B64, _>::new(g(), inits(k), 0.2, 3).set_seed(7);
+                        let (mut s1, mut s2) = (mk(), mk());
+                        let (sample, st) = s1.run_progress(a, b).unwrap();
+                        let plain: Vec<f64> = s2.run(a, b).to_data().to_vec().unwrap();
+                        let flat: Vec<f64> = sample.to_data().to_vec().unwrap();
+                        let arr = ndarray::Array3::from_shape_vec((k, a, 2), flat.clone()).unwrap();
+                        let want = RunStats::from(arr.view());
+                        json!({"same_draws_as_run": flat == plain, "stats_from_returned_draws": seq(&st, &want)})
+                    }
+                    _ => {
+                        let mut s1 = NUTS::<f64, B64, _>::new(g(), inits(k), 0.8).set_seed(7);
+                        let (sample, st) = s1.run_progress(a, b).unwrap();
+                        let flat: Vec<f64> = sample.to_data().to_vec().unwrap();
+                        let arr = ndarray::Array3::from_shape_vec((k, a, 2), flat).unwrap();
+                        let want = RunStats::from(arr.view());
+                        json!({"stats_from_returned_draws": seq(&st, &want)})
+                    }
+                }
             }
             "progress_precision" => {
                 // run_progress on every element type x backend precision; a panic is caught and reported
